@@ -17,8 +17,14 @@ def _defs(body):
         elif l.get("k") == "LetExpr":
             pat, init = l["pat"], l["init"]
         if pat is not None:
-            for bd in hir.pat_bindings(pat):
-                d[bd["id"]] = init
+            ps, es = hir.pat_strip(pat), hir.strip(init)
+            if ps.get("k") == "Tuple" and es.get("k") == "Tup" and len(ps["pats"]) == len(es["es"]):
+                for q, x in zip(ps["pats"], es["es"]):
+                    for bd in hir.pat_bindings(q):
+                        d[bd["id"]] = x
+            else:
+                for bd in hir.pat_bindings(pat):
+                    d[bd["id"]] = init
     return d
 
 
@@ -57,6 +63,9 @@ def from_conv(e, body, dmap, pmap, depth=0):
         return from_conv(e["e"], body, dmap, pmap, depth + 1)
     if k == "Lit":
         return True
+    if k == "Tup":
+        vals = [from_conv(x, body, dmap, pmap, depth + 1) for x in e["es"]]
+        return True if vals and all(v is True for v in vals) else False
     if k == "Binary":
         a = from_conv(e["l"], body, dmap, pmap, depth + 1)
         b = from_conv(e["r"], body, dmap, pmap, depth + 1)
@@ -97,7 +106,8 @@ def rule_pos_conv(prog):
         v = from_conv(e, body, _defs(body), _params(body))
         if isinstance(v, tuple):
             _, idx, name = v
-            if body["d"] == "features::semantic_tokens::create_semantic_token" and name in ("previous_token_pos",):
+            if body["d"].startswith("features::semantic_tokens::") and idx < len(body["params"]) and \
+                    body["params"][idx].get("k") == "Binding" and c.tstr(body["params"][idx]["bt"]) == "lsp_types::Position":
                 n += 1
                 out.add(body["d"], label, True, loc, "delta base threaded from the previous as_position result (checked by SEMTOK-PAIRING)")
                 return
@@ -157,7 +167,8 @@ def rule_pos_conv(prog):
                 if b["d"] == "document::get_insertion_index":
                     continue
                 v = from_conv(fld["base"], b, _defs(b), _params(b))
-                ok = v is True or (isinstance(v, tuple) and b["d"] == "features::semantic_tokens::create_semantic_token")
+                ok = v is True or (isinstance(v, tuple) and b["d"].startswith("features::semantic_tokens::")
+                                   and c.tstr(b["params"][v[1]]["bt"]) == "lsp_types::Position")
                 n += 1
                 out.add(b["d"], "Position.%s of a client position is read only by get_insertion_index" % fld["name"], ok,
                         c.loc(fld["sp"]),
@@ -280,4 +291,97 @@ def rule_send_await(prog):
                     "diagnostics/response may never be delivered" % m["m"])
     if n < 8:
         out.missing("mpsc sender uses (found %d)" % n)
+    return out
+
+
+# ------------------------------------------------------------------ DOC-IN-RANGE
+
+def rule_doc_in_range(prog):
+    """Doc comments consumed by a node parser are part of the node's token range (inside `info(..)`): the formatter and
+    the table builder find a node's comments by slicing with that range."""
+    out = Out("DOC-IN-RANGE")
+    c = prog.front
+    n = 0
+    for b in c.bodies:
+        if not c.file_of(b["sp"]).endswith("parser.rs") or "parser::Parser>::parse" not in b["d"]:
+            continue
+        for call, parents in hir.walk(b["body"]):
+            if call.get("k") != "Call" or not (hir.callee(call) or "").endswith("nom::multi::many0"):
+                continue
+            d = hir.path_def(call["args"][0]) if call["args"] else None
+            if not d or d["p"] != "spl_frontend::parser::comment":
+                continue
+            n += 1
+            inside = any(p.get("k") == "Call" and (hir.callee(p) or "").endswith("parser::utility::info") for p in parents)
+            out.add(b["d"], "leading comments are consumed inside the node's info(..) range", inside, c.loc(call["sp"]),
+                    "`many0(comment)` runs outside `info(..)`: the comments are consumed but lie outside the node's token range, so "
+                    "whoever slices with that range (formatter, semantic tokens) never sees them")
+    if n < 4:
+        out.missing("many0(comment) in node parsers (found %d)" % n)
+    return out
+
+
+# ------------------------------------------------------------------ CHAR-ESCAPES
+
+def rule_char_escapes(prog):
+    """Character literals are printed with exactly the escapes the lexer understands."""
+    out = Out("CHAR-ESCAPES")
+    c = prog.front
+    lex = [b for b in c.bodies if b["d"] == "<lexer::Char as lexer::Lexer>::lex"]
+    disp = [b for b in c.bodies if b["d"] == "<tokens::TokenType as std::fmt::Display>::fmt"]
+    if not lex or not disp:
+        out.missing("Char::lex / Display for TokenType")
+        return out
+    known = set()
+    for call in hir.nodes(lex[0]["body"], "Call"):
+        if (hir.callee(call) or "").endswith("complete::tag") and call["args"]:
+            v = hir.lit_value(call["args"][0])
+            if v and v.startswith("\\"):
+                known.add(v)
+    out.add("<Char as Lexer>::lex", "lexer escape table extracted", bool(known), c.loc(lex[0]["sp"]), "escapes: %s" % sorted(known))
+    TT = "spl_frontend::tokens::TokenType::Char"
+    arm = None
+    for m in hir.nodes(disp[0]["body"], "Match"):
+        for a in m["arms"]:
+            for alt in hir.pat_alternatives(a["pat"]):
+                if hir.pat_variant(alt) == TT:
+                    arm = a
+    if arm is None:
+        out.missing("Char arm of Display for TokenType")
+        return out
+    emitted = set()
+    for l in hir.nodes(arm["body"], "Lit"):
+        v = l["lit"].get("v") or ""
+        if l["lit"]["k"] == "str":
+            i = v.find("\\")
+            while i >= 0 and i + 1 < len(v):
+                emitted.add(v[i:i + 2])
+                i = v.find("\\", i + 2)
+    esc_calls = [m_ for m_ in hir.nodes(arm["body"], "MethodCall") if m_["m"].startswith("escape_")]
+    out.add("Display for TokenType", "Char is printed with escapes the lexer knows", emitted <= known and not esc_calls, c.loc(arm["sp"]),
+            "printer emits %s%s, lexer accepts %s: a formatted character literal must lex back to the same character"
+            % (sorted(emitted), " and calls %s()" % esc_calls[0]["m"] if esc_calls else "", sorted(known)))
+    return out
+
+
+# ------------------------------------------------------------------ INDEX-ELEM
+
+def rule_index_elem(prog):
+    """Handlers never index a vector element with a computed index (request/document dependent): use get()."""
+    out = Out("INDEX-ELEM")
+    c = prog.lsp
+    n = 0
+    for b in c.bodies:
+        if not b["p"].startswith("lsp4spl::features") or "/tests" in c.file_of(b["sp"]) or b["k"] not in ("fn", "assoc_fn"):
+            continue
+        for ix in hir.nodes(b["body"], "Index"):
+            it = c.ty(ix["idx"]["t"])
+            n += 1
+            is_range = it["k"] == "adt" and it["p"].startswith("core::ops::range::")
+            lit = hir.lit_value(ix["idx"]) is not None
+            out.add(b["d"], "vectors are sliced by ranges, never element-indexed with a computed index", is_range or lit, c.loc(ix["sp"]),
+                    "`v[i]` with a computed index panics when the index is out of bounds; in a handler the index depends on the "
+                    "document and the cursor (e.g. more commas than parameters), and a panic kills the server")
+    if n < 10:
+        out.missing("index expressions in feature handlers (found %d)" % n)
     return out
